@@ -23,7 +23,7 @@ def check(repo, tier="quick"):
     res.rule("C19.a", "the work list is a deque used only through append() and popleft() (FIFO: breadth-first, hence shortest-first)")
     res.rule("C19.b", "every dequeued node enqueues both successor families (consume next required symbol; insert each candidate) unless pruned by the depth limit or an empty candidate set")
     res.rule("C19.c", "soundness: the only return of a sequence is under `nothing remains and all matchers complete`; matchers are deep-copied before being advanced; successors extend the prefix by exactly the symbol matched")
-    res.rule("C19.d", "depth limit: reset to the configured limit on the consume branch, decremented on the insert branch, tested before inserting")
+    res.rule("C19.d", "depth limit: reset to the configured limit on the consume branch, decremented on the insert branch, tested before inserting; the default limit is the documented one")
     res.rule("C19.g", "candidates for insertion are those every pattern allows: starting from {wildcard}, each matcher's next symbols (end-of-sequence discarded) are combined by the four-case table (wildcard on both sides: union; only the accumulated set has the wildcard: replace by the matcher's set; only the matcher has it: unchanged; neither: intersection), decided for each of the four cases from the guards of the if-chain; and the matchers themselves step as C18.c requires (symbol and wildcard steps of every current state, no state change on failure), since the search does not test match_symbol's result on the insert branch")
     res.rule("C19.f", "history independence: symbol_re and the encoder's sequence builder keep no state between calls; no swapped same-named arguments")
     res.rule("C19.e", "encoder.make_sequence passes the generic pattern and the level's own table cell and uses the result unchanged")
@@ -207,6 +207,15 @@ def check(repo, tier="quick"):
     ins = [e for e in events if e[0] == "insert"]
     ok2 = bool(ins) and all(norm(e[4]) == "%s - 1" % depth for e in ins)
     tested = any(isinstance(n, ast.If) and norm(n.test) in ("%s <= 0" % depth, "%s < 1" % depth) and any(isinstance(b, ast.Continue) for b in n.body) for n in loop.body)
+    # the permitted number of consecutive insertions a caller relies on is the documented default
+    coded = [n_ for n_ in ast.walk(fn) if isinstance(n_, ast.Call) and isinstance(n_.func, ast.Attribute) and n_.func.attr == "pop" and n_.args and const_str(n_.args[0]) == "depth_limit" and len(n_.args) == 2]
+    doc = ast.get_docstring(fn) or ""
+    import re as _re
+
+    md = _re.search(r"depth_limit\s*:.*?Defaults to (\d+)", doc, _re.S)
+    if coded and md:
+        cv = coded[0].args[1].value if isinstance(coded[0].args[1], ast.Constant) else None
+        res.check(cv == int(md.group(1)), "C19.d", "depth:default-as-documented", where, "the documented default number of consecutive insertions is %s but the code uses %r: with default arguments impossibility is reported although a sequence with %s consecutive insertions exists" % (md.group(1), cv, md.group(1)), by="kwargs.pop('depth_limit', N) with the N of the docstring")
     res.check(ok and ok2 and tested, "C19.d", "depth:bookkeeping", where, "consume successors must carry the configured depth_limit, insert successors depth - 1, and depth <= 0 must prune before inserting", by="reset / decrement / test")
     res.check(any(isinstance(s, ast.Raise) and isinstance(s.exc, ast.Call) and dotted(s.exc.func) == "ImpossibleSequenceError" for s in fn.body[fn.body.index(loop) + 1 :]), "C19.c", "exhaustion:raises", where, "an exhausted search must raise ImpossibleSequenceError", by="raise after the loop")
     rule_e(repo, res)
@@ -267,6 +276,12 @@ def rule_e(repo, res):
     stores = [n for n in ast.walk(fn) if isinstance(n, ast.Assign) and dotted(n.targets[0]) == var] + [n for n in ast.walk(fn) if isinstance(n, ast.Call) and isinstance(n.func, ast.Attribute) and dotted(n.func.value) == var]
     iterated = any(isinstance(n, ast.comprehension) and dotted(n.iter) == var for n in ast.walk(fn)) or any(isinstance(n, ast.For) and dotted(n.iter) == var for n in ast.walk(fn))
     res.check(var is not None and len(stores) == 1 and iterated, "C19.e", "result:used-unchanged", where, "the generated symbol list must feed the data-unit makers unmodified", by="iterated directly")
+    # no value leaves make_sequence without the search: every `return` comes after the call in the function body
+    stmt = call
+    while getattr(stmt, "_parent", None) is not fn:
+        stmt = stmt._parent
+    early = [r for b in fn.body[: fn.body.index(stmt)] for r in ast.walk(b) if isinstance(r, ast.Return)]
+    res.check(not early, "C19.e", "result:every-return-follows-the-search", where, "make_sequence returns at line(s) %s before make_matching_sequence has been called: for that input neither the level's ordering pattern nor the caller's patterns are consulted" % [r.lineno for r in early], by="no return statement before the call")
     # first positional argument: names of the picture data units, in order
     a0 = call.args[0]
     ok = isinstance(a0, ast.Name)
@@ -359,6 +374,36 @@ def rule_g(repo, res, fn, where):
             got = action(node.orelse)
             break
         res.check(got == expected, "C19.g", "candidates:case(wildcard in matcher's=%s, in accumulated=%s)" % (ws, wc), where, "in this case the accumulated candidates must be combined by `%s` but the if-chain does `%s`: a symbol that an earlier pattern forbids can come back (the result then fails that pattern), or allowed symbols are lost" % (expected, got), by=expected)
+    # after the loop over the matchers nothing may be *added* to the candidates unless the wildcard is among them (the
+    # priority symbols stand in for the wildcard; offered without it they are symbols some pattern forbids here, and the
+    # search does not test match_symbol's result on the insert branch)
+    adders = []
+    for x in ast.walk(fn):
+        if getattr(x, "lineno", 0) <= n.end_lineno:
+            continue
+        tgt = None
+        if isinstance(x, ast.Call) and isinstance(x.func, ast.Attribute) and dotted(x.func.value) == cand and x.func.attr in ("update", "add"):
+            tgt = x
+        elif isinstance(x, ast.AugAssign) and dotted(x.target) == cand and isinstance(x.op, (ast.BitOr, ast.Add)):
+            tgt = x
+        elif isinstance(x, ast.Assign) and any(dotted(t) == cand for t in x.targets):
+            tgt = x
+        if tgt is None:
+            continue
+        guarded = False
+        a = getattr(tgt, "_parent", None)
+        child = tgt
+        while a is not None and a is not fn:
+            if isinstance(a, ast.If) and any(child is b or child in ast.walk(b) for b in a.body):
+                terms = a.test.values if isinstance(a.test, ast.BoolOp) and isinstance(a.test.op, ast.And) else [a.test]
+                if any(norm(t) == "WILDCARD in %s" % cand for t in terms):
+                    guarded = True
+            child = a
+            a = getattr(a, "_parent", None)
+        adders.append((tgt, guarded))
+    for tgt, guarded in adders:
+        res.check(guarded, "C19.g", "candidates:additions-only-in-place-of-the-wildcard@%s" % short(tgt, 50), where, "`%s` adds symbols to the jointly allowed candidates without the test `WILDCARD in %s`: where some pattern pins a concrete symbol the added ones are forbidden by it, and the returned sequence then fails that pattern" % (short(tgt, 60), cand), by="dominated by `WILDCARD in candidates`")
+    res.check(len(adders) >= 1, "C19.g", "candidates:priority-substitution-present", where, "no statement substitutes concrete symbols for the wildcard any more", by="%d adding statement(s)" % len(adders))
     sm = repo.mod("symbol_re")
     sub = Result("C18")
     c18.simulation_shape(repo, sub, sm)
